@@ -14,7 +14,7 @@ RULE = ('cases = fits of all seven mixture trainers and the six single-distribut
 DECIDING = ['C09.model', 'C09.trace', 'C09.dist']
 MIN_DECIDED = {'quick': 150, 'thorough': 1500}
 NEEDS_HOOK = True
-CASE_TIMEOUT = {'quick': 240, 'thorough': 600}
+CASE_TIMEOUT = {'quick': 240, 'thorough': 1200}
 ASSUMPTIONS = ['a fit that raises returns no model and is counted as raised', 'a class that loses all its mass during EM has left the stated domain (positive class mass)']
 CLASSES = ['zeros', 'dup', 'lowrank', 'short', 'short1', 'ragged', 'scaled_up', 'scaled_down', 'gauss', 'zerobin', 'zeroclass']
 
@@ -58,10 +58,15 @@ def plan(tier, seed):
             cases.append(dict(lane='dist', fam=fam, D=D, N=int(pick([1, 2, D, D + 1, 3 * D, 30])), lead=pick([[], [2], [2, 2]]) if fam != 'bingham' else [],
                               cls=CLASSES[r % len(CLASSES)], saliency=pick(['none', 'pos', 'zeros', 'onehot']), rs=[seed, 10, i]))
             i += 1
+    if tier == 'thorough':
+        cases.append(dict(lane='suite', rs=[seed, 99, 0]))
     return cases
 
 
 def run_case(case, R):
+    if case['lane'] == 'suite':
+        from vmon import suite_lane
+        return suite_lane.run(R, ID)
     with instr.fp_guard():
         (run_mixture if case['lane'] == 'mixture' else run_dist)(case, R)
 
